@@ -432,6 +432,8 @@ impl LogReader {
 
         // A buffer consolidating all of the fragments retrieved from the log file.
         let mut data_buffer: Vec<u8> = vec![];
+        // True while `data_buffer` holds the start of a record that is still missing fragments.
+        let mut in_fragmented_record = false;
 
         loop {
             let maybe_record = self.read_physical_record();
@@ -442,18 +444,37 @@ impl LogReader {
                         _ => return Err(physical_read_err),
                     }
                 }
+
+                // The fragment was dropped so a record that was being assembled is incomplete.
+                in_fragmented_record = false;
+                data_buffer.clear();
             } else {
                 let record = maybe_record.unwrap();
-                data_buffer.extend(record.data);
 
                 match record.block_type {
                     BlockType::Full => {
-                        return Ok((data_buffer, false));
+                        // Fragments of an unfinished record (e.g. the writer died between
+                        // fragments) are dropped
+                        return Ok((record.data, false));
                     }
-                    BlockType::First => {}
-                    BlockType::Middle => {}
+                    BlockType::First => {
+                        // Drop fragments of an unfinished record
+                        data_buffer.clear();
+                        data_buffer.extend(record.data);
+                        in_fragmented_record = true;
+                    }
+                    BlockType::Middle => {
+                        // A fragment without the start of its record is dropped
+                        if in_fragmented_record {
+                            data_buffer.extend(record.data);
+                        }
+                    }
                     BlockType::Last => {
-                        return Ok((data_buffer, false));
+                        // A fragment without the start of its record is dropped
+                        if in_fragmented_record {
+                            data_buffer.extend(record.data);
+                            return Ok((data_buffer, false));
+                        }
                     }
                 }
             }
